@@ -141,3 +141,76 @@ func (b *advBuilder) equationValid() bool {
 	}
 	return true
 }
+
+// advCredBuilder: adversarial issuance-commitment prover (ProofU) from the protocol equations.
+// U = S^vPrime * R0^secret (* R_i^m_i). Deviation: claim knowledge of `claimed` on the regular
+// secret-key response and carry the difference secret-claimed on an extra response for base R_0.
+type advCredBuilder struct {
+	kp      *vfk.KeyPair
+	secret  *big.Int
+	claimed *big.Int // nil: honest
+	vPrime  *big.Int
+	u       *big.Int
+	vC      *big.Int
+	skR     *big.Int
+	extraR  *big.Int
+	pcomm   *ProofPCommitment
+
+	negative bool
+}
+
+func newAdvCredBuilder(kp *vfk.KeyPair, secret, claimed *big.Int) (*advCredBuilder, error) {
+	pk := kp.Pk
+	b := &advCredBuilder{kp: kp, secret: secret, claimed: claimed}
+	var err error
+	if b.vPrime, err = common.RandomBigInt(pk.Params.LvPrime); err != nil {
+		return nil, err
+	}
+	if b.vC, err = common.RandomBigInt(pk.Params.LvPrimeCommit); err != nil {
+		return nil, err
+	}
+	if b.extraR, err = common.RandomBigInt(pk.Params.LmCommit - 1); err != nil {
+		return nil, err
+	}
+	b.extraR.Add(b.extraR, pow2(pk.Params.LmCommit-1))
+	b.u = new(big.Int).Exp(pk.S, b.vPrime, pk.N)
+	b.u.Mul(b.u, new(big.Int).Exp(pk.R[0], secret, pk.N)).Mod(b.u, pk.N)
+	return b, nil
+}
+
+func (b *advCredBuilder) PublicKey() *gabikeys.PublicKey          { return b.kp.Pk }
+func (b *advCredBuilder) SetProofPCommitment(c *ProofPCommitment) { b.pcomm = c }
+
+func (b *advCredBuilder) Commit(randomizers map[string]*big.Int) ([]*big.Int, error) {
+	pk := b.kp.Pk
+	b.skR = randomizers["secretkey"]
+	uc := new(big.Int).Exp(pk.S, b.vC, pk.N)
+	uc.Mul(uc, new(big.Int).Exp(pk.R[0], b.skR, pk.N)).Mod(uc, pk.N)
+	if b.claimed != nil {
+		uc.Mul(uc, new(big.Int).Exp(pk.R[0], b.extraR, pk.N)).Mod(uc, pk.N)
+	}
+	if b.pcomm != nil {
+		uc.Mul(uc, b.pcomm.Pcommit).Mod(uc, pk.N)
+	}
+	return []*big.Int{b.u, uc}, nil
+}
+
+func (b *advCredBuilder) CreateProof(challenge *big.Int) Proof {
+	s := b.secret
+	if b.claimed != nil {
+		s = b.claimed
+	}
+	p := &ProofU{
+		U:              new(big.Int).Set(b.u),
+		C:              new(big.Int).Set(challenge),
+		VPrimeResponse: new(big.Int).Add(b.vC, new(big.Int).Mul(challenge, b.vPrime)),
+		SResponse:      new(big.Int).Add(b.skR, new(big.Int).Mul(challenge, s)),
+	}
+	if b.claimed != nil {
+		diff := new(big.Int).Sub(b.secret, b.claimed)
+		x := new(big.Int).Add(b.extraR, new(big.Int).Mul(challenge, diff))
+		b.negative = x.Sign() < 0
+		p.MUserResponses = map[int]*big.Int{0: x}
+	}
+	return p
+}
